@@ -46,6 +46,8 @@ def universe():
         ("({'b':1,'a':2},)", ({'b': 1, 'a': 2},)), ("({'a':1,'b':2},)", ({'a': 1, 'b': 2},)), ("[{'b':2,'a':1}]", [{'b': 2, 'a': 1}]), ("[{'a':2,'b':1}]", [{'a': 2, 'b': 1}]),
         ('[True]', [True]), ('[False]', [False]), ('[0]', [0]), ("[False,'x']", [False, 'x']), ("[True,'x']", [True, 'x']), ("[0,'x']", [0, 'x']), ("[1,'x']", [1, 'x']),
         ('(True,)', (True,)), ('(False,)', (False,)), ('(0,)', (0,)), ('[[True]]', [[True]]), ('[[1]]', [[1]]), ("[dt1,'x']", [_DT1, 'x']), ("{'a':True}", {'a': True}),
+        ('np.float32(nan)', np.float32('nan')), ('np.float32(1.5)', np.float32(1.5)), ('np.float32(2.5)', np.float32(2.5)), ('np.float16(nan)', np.float16('nan')),
+        ('(np.float32(nan),)', (np.float32('nan'),)), ('(np.float32(1.5),)', (np.float32(1.5),)), ('np.int32(1)', np.int32(1)),
         ('3', 3), ('2', 2), ("'ab'", 'ab'), ('(None,)', (None,)), ('[[]]', [[]]), ('timedelta', datetime.timedelta(1)),
     ]
     return U
@@ -295,6 +297,9 @@ def check_table(case):
                     return r
             return len(order)
         spellings.append(('sort(a=%r)' % (order,), lambda d, order=order: d.sort(a=list(order)), [(rank(x),) for x in a]))
+    spellings.append(('sort(b=[2,1], a=[1])', lambda d: d.sort(b=[2, 1], a=[1]),
+                      [((0 if (type(y) in (int, float) and y == 2) else 1 if (type(y) in (int, float) and y == 1) else 2), (0 if (type(x) in (int, float) and x == 1) else 1))
+                       for x, y in zip(a, b)]))        # the FIRST order given is the primary one, whatever the column order of the table
     spellings.append(('sort(a=[1], b=[2,1])', lambda d: d.sort(a=[1], b=[2, 1]),
                       [((0 if (type(x) in (int, float) and x == 1) else 1), (0 if (type(y) in (int, float) and y == 2) else 1 if (type(y) in (int, float) and y == 1) else 2))
                        for x, y in zip(a, b)]))
